@@ -503,13 +503,29 @@ pub fn boundary_doms(types: &[VariantType], known: &[KnownProp], xml_safe: bool,
         if let Some(p) = known.iter().filter(usable).find(|p| !p.is_alias) {
             places.push((p.class.clone(), p.name.clone()));
         }
-        if let Some(p) = known.iter().filter(usable).find(|p| p.is_alias) {
-            places.push((p.class.clone(), p.name.clone()));
+        // every alias / serialized spelling of a Ref or SharedString property (their values are resolved in a second
+        // pass of the readers, keyed by name), the first one for the other types
+        let all_aliases = matches!(ty, VariantType::Ref | VariantType::SharedString);
+        for p in known.iter().filter(usable).filter(|p| p.is_alias).take(if all_aliases { usize::MAX } else { 1 }) {
+            places.push((if p.class == "JointInstance" { "Weld".to_string() } else { p.class.clone() }, p.name.clone()));
         }
         if with_unknown {
             places.push(("VerifBoundary".to_string(), format!("B{:?}", ty)));
         }
         for (class, name) in places {
+            if *ty == VariantType::Ref {
+                // references need targets: five instances of the class in one forest, pointing forwards, backwards, at
+                // themselves, at nothing and at an instance that is not part of the forest
+                let mut dom = WeakDom::new(InstanceBuilder::new("DataModel"));
+                let root = dom.root_ref();
+                let ids: Vec<Ref> = (0..5).map(|i| dom.insert(root, InstanceBuilder::new(class.as_str()).with_name(format!("R{}", i)))).collect();
+                let targets = [ids[1], ids[0], ids[2], Ref::none(), Ref::new()];
+                for (id, t) in ids.iter().zip(targets) {
+                    dom.get_by_ref_mut(*id).unwrap().properties.insert(name.as_str().into(), Variant::Ref(t));
+                }
+                out.push((format!("{:?}.{}.{}.refs", ty, class, name), dom));
+                continue;
+            }
             for (gi, group) in values.chunks(per_dom).enumerate() {
                 let mut dom = WeakDom::new(InstanceBuilder::new("DataModel"));
                 let root = dom.root_ref();
